@@ -183,7 +183,7 @@ def load_known():
 
 
 def write_replay(prop, seed, tier, kind, body):
-    d = os.path.join(vlib.ROOT, "replays")
+    d = os.path.join(vlib.OUT, "replays")
     os.makedirs(d, exist_ok=True)
     path = os.path.join(d, "%s-%s-%d.json" % (prop, kind, seed))
     obj = dict(property=prop, seed=seed, tier=tier, kind=kind)
@@ -421,7 +421,8 @@ def main():
         cov["translator_parts_not_translated_but_unrelated_to_this_property"] = sorted(tr_failed)
     ev = dict(property_id=prop, tier=tier, seed=seed, level="proof", coverage=cov,
               assumptions=getattr(mod, "ASSUMPTIONS", []), wall_s=round(time.time() - t0, 2), violations=violations)
-    vlib.write_json(os.path.join(vlib.ROOT, "evidence", prop + ".json"), ev)
+    os.makedirs(os.path.join(vlib.OUT, "evidence"), exist_ok=True)
+    vlib.write_json(os.path.join(vlib.OUT, "evidence", prop + ".json"), ev)
     log("%s %s tier=%s seed=%d: theorems %d/%d, cases %d (distinct non-trivial %d), corr-mismatch %d, oracle-reject %d, %.1fs"
         % ("OK" if exit_code == 0 else "FAIL", prop, tier, seed, proof["discharged"], proof["obligations"], len(cases),
            len(nontriv), len(corr_viol), len(oracle_viol), time.time() - t0))
